@@ -141,7 +141,7 @@ def bake_variants():
 
 
 def scan_bake(ctx):
-    key = (id(ctx.model), 'Recipe.bake', 'bake')
+    key = (ctx.model.serial, 'Recipe.bake', 'bake')
     if key in uscan._cache:
         return uscan._cache[key]
     from ..unitai import explore, Incomplete
